@@ -19,8 +19,9 @@ class ExprArraySubscriptModel(ExprModel):
             fm = self.lhs.fm.field_l[index]
             return fm.build(btor)
         else:
-            # TODO: support array slicing
-            raise NotImplementedError("Cannot subscript an lvalue of type " + str(type(self.lhs)))
+            # A list that belongs to an element of a list of objects
+            # (objs[0].arr[1])
+            return self.subscript().build(btor)
         
     def subscript(self):
         from vsc.model.expr_indexed_field_ref_model import ExprIndexedFieldRefModel
@@ -43,16 +44,14 @@ class ExprArraySubscriptModel(ExprModel):
         if isinstance(self.lhs, ExprFieldRefModel):
             return self.lhs.fm.field_l[index].is_signed
         else:
-            # TODO: support array slicing
-            raise NotImplementedError("Cannot subscript an lvalue of type " + str(type(self.lhs)))
+            return self.subscript().is_signed
         
     def width(self):
         index = int(self.rhs.val())
         if isinstance(self.lhs, ExprFieldRefModel):
             return self.lhs.fm.field_l[index].width
         else:
-            # TODO: support array slicing
-            raise NotImplementedError("Cannot subscript an lvalue of type " + str(type(self.lhs)))
+            return self.subscript().width
         
     def accept(self, v):
         v.visit_expr_array_subscript(self)
@@ -62,14 +61,12 @@ class ExprArraySubscriptModel(ExprModel):
         if isinstance(self.lhs, ExprFieldRefModel):
             return self.lhs.fm.field_l[index].val
         else:
-            # TODO: support array slicing
-            raise NotImplementedError("Cannot subscript an lvalue of type " + str(type(self.lhs)))
+            return self.subscript().val
         
     def getFieldModel(self):
         index = int(self.rhs.val())
         if isinstance(self.lhs, ExprFieldRefModel):
             return self.lhs.fm.field_l[index]
         else:
-            # TODO: support array slicing
-            raise NotImplementedError("Cannot subscript an lvalue of type " + str(type(self.lhs)))
+            return self.subscript()
         
